@@ -55,7 +55,7 @@ def run(tier, replay_file=None):
              (25, '{0,25,50,60,75,100}'), (20, '{0,20,40,60,100}')]
     for k, (dt, delays) in enumerate(menus[:3] if quick else menus):
         h2, _ = gen.histories("Abm", consts(8, 12, 40, dt, delays, OPS_ALL), 24 if quick else 40,
-                              simulate=25 if quick else 600, seed=common.seed() * 10 + k + 1, cache=False)
+                              simulate=25 if quick else 300, seed=common.seed() * 10 + k + 1, cache=False)
         sets.append((h2, dt, None))
         nsim += len(h2)
     h3, _ = gen.histories("Abm", consts(10, 12, 40, 50, '{0,30,50,100}', OPS_ALL, spawn=SPAWN_TLA), 24 if quick else 40,
